@@ -136,7 +136,9 @@ def _split_by_commas(ctx):
         for n in ('QuotedString', 'Word', 'delimitedList', 'delimited_list',
                   'DelimitedList', 'Literal', 'Regex', 'OneOrMore',
                   'ZeroOrMore', 'Optional', 'Suppress', 'Group', 'Combine',
-                  'CharsNotIn', 'StringStart', 'StringEnd'):
+                  'CharsNotIn', 'StringStart', 'StringEnd', 'And', 'Or',
+                  'MatchFirst', 'Each', 'White', 'LineEnd', 'Empty',
+                  'SkipTo', 'Opt', 'NotAny', 'FollowedBy'):
             interp.pure_calls.add('pyparsing.' + n)
         interp.pure_methods.update({'parseString', 'parse_string'})
         interp.method_raises['parseString'] = ['pyparsing.ParseException']
